@@ -24,8 +24,8 @@ import (
 func init() {
 	hx.Register(&hx.Prop{
 		ID: "C04",
-		Rule: "conforming base document (every container kind: components of 8 sections, 3 paths, operations, path-level and operation-level " +
-			"parameters by value and by $ref, request bodies, responses with headers/links/two media types, nested schemas with " +
+		Rule: "conforming base document (every container kind: components of 9 sections incl. callbacks, 4 paths, operations, path-level and operation-level " +
+			"parameters by value and by $ref, servers at root / path item / operation, request bodies with encoding objects and their headers, responses with headers/links/two media types, nested schemas with " +
 			"oneOf/anyOf/allOf/not/items/properties/additionalProperties, items without type) × every injected violation or benign twin applicable " +
 			"to the class of the site × every site of that class found by a typed walk of the document × option sets (default, each single option, " +
 			"allow-list, all; thorough: all 64); plus a seeded stream of 1–3 simultaneous injections with random option sets. " +
@@ -246,7 +246,10 @@ const c04Base = `{
    "oauth": {"type": "oauth2", "flows": {"implicit": {"authorizationUrl": "https://example.com/a", "scopes": {}}}}
   },
   "examples": {"One": {"value": 1}, "Str": {"value": "t"}, "Detached": {"value": "d"}},
-  "links": {"Next": {"operationId": "getX"}, "Detached": {"operationId": "getX"}}
+  "links": {"Next": {"operationId": "getX"}, "Detached": {"operationId": "getX"}},
+  "callbacks": {"Cb": {"{$request.body#/url}": {"post": {"requestBody": {"content": {"application/json": {"schema": {"type": "string"}}}},
+                                                         "responses": {"200": {"description": "ok"}}}}},
+                "Detached": {"{$request.body#/d}": {"get": {"responses": {"204": {"description": "n"}}}}}}
  },
  "paths": {
   "/x/{id}": {
@@ -270,7 +273,9 @@ const c04Base = `{
    }
   },
   "/y": {
+   "servers": [{"url": "https://y.example.com"}],
    "put": {"requestBody": {"$ref": "#/components/requestBodies/Body"},
+           "servers": [{"url": "https://{v}.example.com/y", "variables": {"v": {"default": "a"}}}],
            "parameters": [{"name": "h", "in": "header", "schema": {"type": "array", "items": {"type": "string"}}},
                           {"name": "c", "in": "cookie", "schema": {"type": "string", "example": "s"}}],
            "responses": {"204": {"description": "n"}}}
@@ -320,7 +325,7 @@ func deepCopy(v any) any {
 type c04Site struct {
 	class string
 	path  []any // keys (string) and indices (int) from the root
-	noref bool  // a position whose $ref the loader does not resolve (header content, components.links): no reference injections here
+	noref bool  // a position whose $ref the loader does not resolve: none since cbb0d05 (kept for the replay format)
 }
 
 func sortedKeys(m map[string]any) []string {
@@ -399,12 +404,10 @@ func (w *c04Walker) content(path []any, v any) {
 				}
 				w.add("encoding", append(p, "encoding", n))
 				if hs := asMap(enc["headers"]); hs != nil {
-					old := w.noref
-					w.noref = true // the loader does not resolve references under encoding.headers (DESIGN §7 #41)
+					// (references under encoding.headers are resolved by the loader since cbb0d05)
 					for _, hn := range sortedKeys(hs) {
 						w.refOr("header", append(p, "encoding", n, "headers", hn), hs[hn], w.paramLike("header"))
 					}
-					w.noref = old
 				}
 			}
 		}
@@ -416,18 +419,13 @@ func (w *c04Walker) paramLike(class string) func(path []any, m map[string]any) {
 		w.add(class, path)
 		w.refOr("schema", append(path, "schema"), m["schema"], w.schema)
 		if m["content"] != nil {
-			old := w.noref
-			w.noref = w.noref || class == "header"
 			w.content(append(path, "content"), m["content"])
-			w.noref = old
 		}
 		if ex := asMap(m["examples"]); ex != nil {
-			old := w.noref
-			w.noref = true // the loader does not resolve references under parameter.examples
+			// (references under parameter / header examples are resolved by the loader since cbb0d05)
 			for _, n := range sortedKeys(ex) {
 				w.refOr("example", append(path, "examples", n), ex[n], func(pp []any, m map[string]any) { w.add("example", pp) })
 			}
-			w.noref = old
 		}
 	}
 }
@@ -479,14 +477,7 @@ func (w *c04Walker) doc(d map[string]any) {
 			w.add("contact", []any{"info", "contact"})
 		}
 	}
-	for i, s := range jlist(d["servers"]) {
-		w.add("server", []any{"servers", i})
-		if vs := asMap(asMap(s)["variables"]); vs != nil {
-			for _, k := range sortedKeys(vs) {
-				w.add("serverVar", []any{"servers", i, "variables", k})
-			}
-		}
-	}
+	w.servers([]any{"servers"}, d["servers"])
 	for i, t := range jlist(d["tags"]) {
 		w.add("tag", []any{"tags", i})
 		if asMap(asMap(t)["externalDocs"]) != nil {
@@ -524,9 +515,17 @@ func (w *c04Walker) doc(d map[string]any) {
 			}
 		})
 		sect("examples", "example", func(p []any, m map[string]any) { w.add("example", p) })
-		w.noref = true // references under components.links are never resolved by the loader (DESIGN §7 #13)
+		// (references under components.links are resolved by the loader since cbb0d05)
 		sect("links", "link", func(p []any, m map[string]any) { w.add("link", p) })
-		w.noref = false
+		// callbacks: every key that is not an extension is a path item (the template rules of `paths` do not apply)
+		sect("callbacks", "callback", func(p []any, m map[string]any) {
+			w.add("callback", p)
+			for _, k := range sortedKeys(m) {
+				if pi := asMap(m[k]); pi != nil && !strings.HasPrefix(k, "x-") {
+					w.pathItem(append(p, k), pi)
+				}
+			}
+		})
 	}
 	if ps := asMap(d["paths"]); ps != nil {
 		w.add("paths", []any{"paths"})
@@ -535,34 +534,55 @@ func (w *c04Walker) doc(d map[string]any) {
 			if pi == nil || strings.HasPrefix(k, "x-") {
 				continue
 			}
-			p := []any{"paths", k}
-			w.add("pathItem", p)
-			if pi["parameters"] != nil {
-				w.params(append(p, "parameters"), pi["parameters"])
-			}
-			for _, m := range c04Methods {
-				op := asMap(pi[m])
-				if op == nil {
-					continue
-				}
-				q := append(p, m)
-				w.add("operation", q)
-				if op["parameters"] != nil {
-					w.params(append(q, "parameters"), op["parameters"])
-				}
-				w.refOr("requestBody", append(q, "requestBody"), op["requestBody"], w.requestBody)
-				if rs := asMap(op["responses"]); rs != nil {
-					w.add("responses", append(q, "responses"))
-					for _, code := range sortedKeys(rs) {
-						if !strings.HasPrefix(code, "x-") {
-							w.refOr("response", append(q, "responses", code), rs[code], w.response)
-						}
-					}
-				}
-				if asMap(op["externalDocs"]) != nil {
-					w.add("externalDocs", append(q, "externalDocs"))
+			w.pathItem([]any{"paths", k}, pi)
+		}
+	}
+}
+
+func (w *c04Walker) servers(path []any, v any) {
+	for i, s := range jlist(v) {
+		if asMap(s) == nil {
+			continue
+		}
+		w.add("server", append(path, i))
+		if vs := asMap(asMap(s)["variables"]); vs != nil {
+			for _, k := range sortedKeys(vs) {
+				if asMap(vs[k]) != nil {
+					w.add("serverVar", append(path, i, "variables", k))
 				}
 			}
+		}
+	}
+}
+
+func (w *c04Walker) pathItem(p []any, pi map[string]any) {
+	w.add("pathItem", p)
+	if pi["parameters"] != nil {
+		w.params(append(p, "parameters"), pi["parameters"])
+	}
+	w.servers(append(p, "servers"), pi["servers"]) // never validated by the code (F-C04-7)
+	for _, m := range c04Methods {
+		op := asMap(pi[m])
+		if op == nil {
+			continue
+		}
+		q := append(p, m)
+		w.add("operation", q)
+		if op["parameters"] != nil {
+			w.params(append(q, "parameters"), op["parameters"])
+		}
+		w.servers(append(q, "servers"), op["servers"]) // never validated by the code (F-C04-7)
+		w.refOr("requestBody", append(q, "requestBody"), op["requestBody"], w.requestBody)
+		if rs := asMap(op["responses"]); rs != nil {
+			w.add("responses", append(q, "responses"))
+			for _, code := range sortedKeys(rs) {
+				if !strings.HasPrefix(code, "x-") {
+					w.refOr("response", append(q, "responses", code), rs[code], w.response)
+				}
+			}
+		}
+		if asMap(op["externalDocs"]) != nil {
+			w.add("externalDocs", append(q, "externalDocs"))
 		}
 	}
 }
@@ -805,7 +825,7 @@ var c04DetachTargets = map[string]string{
 	"parameter": "#/components/parameters/Detached", "requestBody": "#/components/requestBodies/Detached",
 	"response": "#/components/responses/Detached", "header": "#/components/headers/Detached",
 	"example": "#/components/examples/Detached", "link": "#/components/links/Detached",
-	"securityScheme": "#/components/securitySchemes/Detached",
+	"securityScheme": "#/components/securitySchemes/Detached", "callback": "#/components/callbacks/Detached",
 }
 
 func replaceByRef(kind string, detach bool, extra map[string]any) func(*c04Builder, c04Site, map[string]any) {
@@ -837,7 +857,7 @@ func c04Injections() []c04Inj {
 		add("extra:summary2", cl, always, setKey("summary2", "s"))
 	}
 	// reference wrappers: siblings and unresolved
-	for _, k := range []string{"schema", "innerSchema", "parameter", "requestBody", "response", "header", "example", "link", "securityScheme"} {
+	for _, k := range []string{"schema", "innerSchema", "parameter", "requestBody", "response", "header", "example", "link", "securityScheme", "callback"} {
 		add("ref:sibling-bogus", "ref:"+k, always, setKey("bogus", 1))
 		add("ref:sibling-description", "ref:"+k, always, setKey("description", "d"))
 		add("ref:sibling-x", "ref:"+k, always, setKey("x-ext", 1))
@@ -845,7 +865,7 @@ func c04Injections() []c04Inj {
 	}
 	// value objects replaced by references (resolved / unresolved / with sibling)
 	for cl, k := range map[string]string{"schema": "schema", "parameter": "parameter", "requestBody": "requestBody", "response": "response",
-		"header": "header", "example": "example", "link": "link", "securityScheme": "securityScheme"} {
+		"header": "header", "example": "example", "link": "link", "securityScheme": "securityScheme", "callback": "callback"} {
 		kind := k
 		notComponent := func(m map[string]any) bool { return true }
 		add("toref:resolved", cl, notComponent, replaceByRef(kind, false, nil))
@@ -868,6 +888,26 @@ func c04Injections() []c04Inj {
 		m["variables"] = map[string]any{"env": map[string]any{"default": "p"}, "other": map[string]any{"default": "o"}}
 	})
 	add("serverVar:no-default", "serverVar", always, delKey("default"))
+	for _, cl := range []string{"pathItem", "operation"} {
+		add("servers:add-no-url(F-C04-7)", cl, always, setKey("servers", []any{map[string]any{"description": "no url"}}))
+		add("servers:add-undeclared-variable(F-C04-7)", cl, always, setKey("servers", []any{map[string]any{"url": "https://{zone}.example.com"}}))
+		add("servers:add-extra-field(F-C04-7)", cl, always, setKey("servers", []any{map[string]any{"url": "https://example.com", "bogus": 1}}))
+		add("servers:add-ok", cl, always, setKey("servers", []any{map[string]any{"url": "https://{zone}.example.com", "variables": map[string]any{"zone": map[string]any{"default": "a"}}, "x-s": 1}}))
+	}
+	add("callback:x-ext-ok", "callback", always, setKey("x-cb", 1))
+	add("callback:second-expression-bad-operation", "callback", always, setKey("{$request.query.u}", map[string]any{"get": map[string]any{"description": "no responses"}}))
+	add("callback:second-expression-ok", "callback", always, setKey("{$request.query.u}", map[string]any{"get": map[string]any{"responses": map[string]any{"204": map[string]any{"description": "n"}}}}))
+	// null entries: reported as invalid since 6bd2b91 (they used to make Validate panic)
+	add("root:servers-null-entry", "root", hasKey("servers"), func(_ *c04Builder, _ c04Site, m map[string]any) {
+		m["servers"] = append(append([]any{}, jlist(m["servers"])...), nil)
+	})
+	add("root:tags-null-entry", "root", always, func(_ *c04Builder, _ c04Site, m map[string]any) {
+		m["tags"] = append(append([]any{}, jlist(m["tags"])...), nil)
+	})
+	add("server:null-variable", "server", always, func(_ *c04Builder, _ c04Site, m map[string]any) {
+		m["url"] = "https://{env}.example.com"
+		m["variables"] = map[string]any{"env": nil}
+	})
 	// security schemes
 	add("sec:bad-type", "securityScheme", always, setKey("type", "magic"))
 	add("sec:http-bad-scheme", "securityScheme", func(m map[string]any) bool { return m["type"] == "http" }, setKey("scheme", "nope"))
@@ -905,7 +945,7 @@ func c04Injections() []c04Inj {
 	add("link:none", "link", always, delKey("operationId"))
 	add("link:both", "link", always, setKey("operationRef", "#/paths/~1y/put"))
 	// components: malformed names
-	for _, s := range []string{"schemas", "parameters", "requestBodies", "responses", "headers", "securitySchemes", "examples", "links"} {
+	for _, s := range []string{"schemas", "parameters", "requestBodies", "responses", "headers", "securitySchemes", "examples", "links", "callbacks"} {
 		add("name:malformed", "section:"+s, always, func(_ *c04Builder, _ c04Site, m map[string]any) {
 			ks := sortedKeys(m)
 			m["bad name!"] = deepCopy(m[ks[len(ks)-1]])
@@ -1108,6 +1148,18 @@ func c04Injections() []c04Inj {
 			m["examples"] = map[string]any{"e": map[string]any{"value": nil}}
 		})
 		add("example-and-examples", cl, hasKey("schema"), nil)
+		add("example-and-empty-examples", cl, hasKey("schema"), nil)
+		add("examples:value-and-external", cl, hasKey("schema"), nil)
+		add("examples:external-and-mismatch", cl, hasKey("schema"), nil)
+		add("examples:external-and-match", cl, hasKey("schema"), nil)
+		add("examples:ref-One", cl, hasKey("schema"), func(_ *c04Builder, _ c04Site, m map[string]any) {
+			delete(m, "example")
+			m["examples"] = map[string]any{"r": map[string]any{"$ref": "#/components/examples/One"}}
+		})
+		add("examples:ref-Str", cl, hasKey("schema"), func(_ *c04Builder, _ c04Site, m map[string]any) {
+			delete(m, "example")
+			m["examples"] = map[string]any{"r": map[string]any{"$ref": "#/components/examples/Str"}}
+		})
 		add("examples:external-only", cl, hasKey("schema"), func(_ *c04Builder, _ c04Site, m map[string]any) {
 			delete(m, "example")
 			m["examples"] = map[string]any{"ext": map[string]any{"externalValue": "https://example.com/e.json"}}
@@ -1145,6 +1197,51 @@ func c04Injections() []c04Inj {
 	add("mediaType:encoding-header-ok", "mediaType", always, setKey("encoding", map[string]any{"p": map[string]any{"contentType": "text/plain",
 		"headers": map[string]any{"X-E": map[string]any{"schema": map[string]any{"type": "string"}}}}}))
 	add("mediaType:encoding-ok", "mediaType", always, setKey("encoding", map[string]any{"p": map[string]any{"contentType": "text/plain", "x-e": 1}}))
+	for _, st := range []string{"form", "simple", "label", "matrix", "spaceDelimited", "pipeDelimited", "deepObject", "weird", ""} {
+		for _, ex := range []any{nil, true, false} {
+			st, ex := st, ex
+			add(fmt.Sprintf("encoding:style=%s,explode=%v", st, ex), "encoding", always, func(_ *c04Builder, _ c04Site, m map[string]any) {
+				if st == "" {
+					delete(m, "style")
+				} else {
+					m["style"] = st
+				}
+				if ex == nil {
+					delete(m, "explode")
+				} else {
+					m["explode"] = ex
+				}
+			})
+		}
+	}
+	encHeader := func(key string, h map[string]any) func(*c04Builder, c04Site, map[string]any) {
+		return func(_ *c04Builder, _ c04Site, m map[string]any) {
+			hs := asMap(deepCopy(m["headers"]))
+			if hs == nil {
+				hs = map[string]any{}
+			}
+			hs[key] = deepCopy(h)
+			m["headers"] = hs
+		}
+	}
+	add("encoding:add-header-ok", "encoding", always, encHeader("X-New", map[string]any{"schema": map[string]any{"type": "string"}}))
+	add("encoding:add-header-named(dropped)", "encoding", always, encHeader("X-New", map[string]any{"name": "X", "schema": map[string]any{"type": "string"}}))
+	add("encoding:add-header-bad-key(dropped)", "encoding", always, encHeader("bad key!", map[string]any{"schema": map[string]any{"type": "string"}}))
+	add("encoding:add-header-ref", "encoding", always, encHeader("X-R", map[string]any{"$ref": "#/components/headers/Hdr"}))
+	add("encoding:add-header-ref-sibling(dropped)", "encoding", always, encHeader("X-R", map[string]any{"$ref": "#/components/headers/Hdr", "bogus": 1}))
+	add("encoding:bad-style-masked-by-header", "encoding", always, func(_ *c04Builder, _ c04Site, m map[string]any) {
+		m["style"] = "matrix"
+		m["headers"] = map[string]any{"X-E": map[string]any{"in": "header", "schema": map[string]any{"type": "string"}}}
+	})
+	add("encoding:allowReserved-contentType-ok", "encoding", always, func(_ *c04Builder, _ c04Site, m map[string]any) {
+		m["allowReserved"] = true
+		m["contentType"] = "application/json, text/plain"
+	})
+	add("mediaType:two-encodings-second-bad", "mediaType", always, setKey("encoding", map[string]any{
+		"a": map[string]any{"contentType": "text/plain"}, "b": map[string]any{"style": "label"}}))
+	add("mediaType:two-encodings-first-dropped-second-bad", "mediaType", always, setKey("encoding", map[string]any{
+		"a": map[string]any{"headers": map[string]any{"X-E": map[string]any{"name": "X", "schema": map[string]any{"type": "string"}}}},
+		"b": map[string]any{"bogus": 1}}))
 	add("mediaType:no-schema-with-example", "mediaType", always, func(_ *c04Builder, _ c04Site, m map[string]any) {
 		delete(m, "schema")
 		delete(m, "examples")
@@ -1314,13 +1411,33 @@ func applyInjection(b *c04Builder, inj c04Inj, site c04Site) bool {
 		}
 		m["examples"] = ex
 		return true
-	case "example-and-examples":
+	case "example-and-examples", "example-and-empty-examples":
 		v, ok := exampleFor(b.doc, m, true)
 		if !ok {
 			return false
 		}
 		m["example"] = v
-		m["examples"] = map[string]any{"e": map[string]any{"value": v}}
+		if inj.name == "example-and-examples" {
+			m["examples"] = map[string]any{"e": map[string]any{"value": v}}
+		} else {
+			m["examples"] = map[string]any{}
+		}
+		return true
+	case "examples:value-and-external":
+		v, ok := exampleFor(b.doc, m, true)
+		if !ok {
+			return false
+		}
+		delete(m, "example")
+		m["examples"] = map[string]any{"e": map[string]any{"value": v, "externalValue": "https://example.com/e.json"}}
+		return true
+	case "examples:external-and-mismatch", "examples:external-and-match":
+		v, ok := exampleFor(b.doc, m, inj.name == "examples:external-and-match")
+		if !ok {
+			return false
+		}
+		delete(m, "example")
+		m["examples"] = map[string]any{"a-ext": map[string]any{"externalValue": "https://example.com/e.json"}, "b": map[string]any{"value": v}}
 		return true
 	}
 	inj.apply(b, site, m)
@@ -1351,7 +1468,8 @@ func c04Case(doc map[string]any, detach []any, opts map[string]any, tag string, 
 // injections whose verdict can depend on a validation option
 func c04OptionSensitive(name string) bool {
 	for _, p := range []string{"extra:", "ref:", "toref:", "example", "schema:default", "schema:example", "schema:format", "schema:pattern",
-		"schema:nested", "schema:xml", "schema:discriminator", "mediaType:encoding-bogus", "mediaType:encoding-ok", "mediaType:no-schema", "param:content-"} {
+		"schema:nested", "schema:xml", "schema:discriminator", "mediaType:encoding-bogus", "mediaType:encoding-ok", "mediaType:no-schema", "param:content-",
+		"mediaType:two-encodings", "encoding:add-header", "encoding:bad-style", "servers:add-extra-field", "callback:x-ext"} {
 		if strings.HasPrefix(name, p) {
 			return true
 		}
